@@ -32,11 +32,12 @@ CLAIMS = {
             "temporary and renames it; the reader delivers an edit only at its separator and drops a trailing partial edit; "
             "lines are CRC-gated; the directory lock is taken before reading and owned by the handle; only _apply/rollover "
             "write manifest files.  Does not decide tolerance of every truncation/crash point or the string alphabet.", "§4 C13"),
-    "C08": ("who-may-call enumeration of every remove/rename/hard_link site with ORIGIN path classification; GUARDED/ORDER on unref, verifier and orphan scan; ESCAPE of the VersionRef",
+    "C08": ("who-may-call enumeration of every remove/rename/hard_link site with ORIGIN path classification; GUARDED/ORDER on unref, verifier and orphan scan (incl. the numeric order of manifest fragments and who may run the scan); ESCAPE of the VersionRef; MUSTPASS re-read of the base version after a wait",
             "Decides the deletion capability: nothing under sst/, mani/ or a log is ever unlinked by the store, an sst/ file is "
             "moved to trash/ only under dec()==true and strong_count==1, versions are referenced before publication, the "
             "verifier unlinks only what a durable intent names and only after verify_one, the orphan scan skips roll-ups and "
-            "only renames, and scan cursors own the VersionRef pinning their files.  Does not decide that reference counts are "
+            "only renames, folds fragments in numeric order and runs only while the tree is being opened; a new version is derived from the "
+            "version current at installation; scan cursors own the VersionRef pinning their files.  Does not decide that reference counts are "
             "numerically right for every history.", "§4 C08"),
     "C04": ("equality-gate table (GUARDED fail-closed Setsum comparisons), ORDER of Edit::info I/O/D before apply, accumulator MUSTPASS, loop-body MUSTPASS for GC discard",
             "Decides presence and placement of every balance gate and accumulator: compaction commit only on input == output + "
@@ -74,7 +75,11 @@ CLAIMS = {
             "Decides the lookup-precedence and freshness skeleton: mem before imm before tree with early exit on hit or tombstone; "
             "L0 newest-first before deeper levels; batches stamped with the fresh sequence number before use; publish after "
             "durable; imm cleared after ingest; sequence numbers restart above every existing timestamp; plus the snapshot/visibility, "
-            "bloom-accumulation, GC per-key-state, log-replay, manifest replay-order and orphan-scan rules of the sibling properties.  Does not decide "
+            "bloom-accumulation, GC per-key-state, log-replay, manifest replay-order and orphan-scan rules of the sibling properties; the "
+            "conflict predicate of concurrent compactions is closed-interval intersection in levels and keys (read as a conjunction "
+            "of comparisons), a compaction is expanded only by files contained in its range, an ingest derives the installed "
+            "version from a snapshot re-read after its stall wait, and the memtable answers for exactly the requested key at the "
+            "requested timestamp with versions ordered newest first.  Does not decide "
             "compaction input closure, recovery level assignment, bloom/block search arithmetic.", "§4 C01"),
     "C03": ("ORIGIN chains (pipeline composition), loop-body MUSTPASS (every file wrapped and merged), GUARDED (overlap skip) plus the overlap predicate's decision table over (bound kinds x key order) read from MIR, HELD (snapshot capture); re-evaluates C11.1/4/5/6, C06.3/5, C05.5",
             "Decides pipeline composition: every scan is Bounds(Pruning(Merging(components))) with the captured timestamp and "
